@@ -249,7 +249,27 @@ def job_cubic_fit(seed, N=4):
         else:
             obs.append(rvc.identity('C12.cubic.fitbc.periodic/value', 'CubicSpline::AddBCToFitMatrix', 'constraint row 0 == f_0 - f_{N-1} (equal end values)', rows[0], f.g(0).v - f.g(N - 1).v, seed, bound=bound))
             obs.append(rvc.identity('C12.cubic.fitbc.periodic/curv', 'CubicSpline::AddBCToFitMatrix', 'constraint row N-1 == f2_0 - f2_{N-1} (equal end curvature)', rows[N - 1], g.g(0).v - g.g(N - 1).v, seed, bound=bound))
-    mf = fn_meta(fns, 'CubicSpline', ['AddToFitMatrix', 'AddBCToFitMatrix'], rel)
+    # frames: AddBCToFitMatrix(M, l, c) touches rows [l, l+N) only; AddBCSumZeroToFitMatrix(M, l, c) replaces row l by sum_i f_i and touches nothing else
+    for bc, bcn in ((0, 'natural'), (1, 'periodic')):
+        this = {'r_': Mx.vec(xs), 'f_': f, 'f2_': g, 'boundaries_': bc}
+        def sentinel():
+            return Mx(N + 3, 2 * N + 2, [[D(sp.Symbol('m_%d_%d' % (i, j), real=True)) for j in range(2 * N + 2)] for i in range(N + 3)])
+        B = sentinel(); B0 = sentinel()
+        ex = mk_exec(fns, this, None)
+        ex.call_fn(fns['AddBCToFitMatrix'][0], [B, 1, 1], this)
+        ok = all(B.g(i, j).v == B0.g(i, j).v for i in range(N + 3) for j in range(2 * N + 2) if not (1 <= i < 1 + N and 1 <= j < 1 + 2 * N))
+        obs.append(Ob('C12.cubic.fitbc.%s/frame' % bcn, 'CubicSpline::AddBCToFitMatrix', 'only rows [l, l+N) and columns [c, c+2N) of the matrix are written', 'RVC', 'symbolic execution', core.BOUNDED if ok else core.REFUTED, 0, '', bound=bound, witness=None if ok else {}))
+        ms = fns.get('AddBCSumZeroToFitMatrix', []) or rvc.functions(rvc.ast('csg/src/tools/csg_fmatch.cc', 'AddBCSumZeroToFitMatrix')).get('AddBCSumZeroToFitMatrix', [])   # only instantiated by csg_fmatch
+        if not ms:
+            raise core.Undecided('front end: AddBCSumZeroToFitMatrix instantiation not found')
+        B = sentinel()
+        ex = mk_exec(fns, this, None)
+        ex.call_fn(ms[0], [B, 2, 1], this)
+        ok = all(B.g(i, j).v == B0.g(i, j).v for i in range(N + 3) for j in range(2 * N + 2) if not (i == 2 and 1 <= j < 1 + 2 * N))
+        obs.append(Ob('C12.cubic.fitsum0.%s/frame' % bcn, 'CubicSpline::AddBCSumZeroToFitMatrix', 'only row l, columns [c, c+2N) of the matrix is written', 'RVC', 'symbolic execution', core.BOUNDED if ok else core.REFUTED, 0, '', bound=bound, witness=None if ok else {}))
+        row = sum((B.g(2, 1 + j).v * unk[j] for j in range(2 * N)), sp.Integer(0))
+        obs.append(rvc.identity('C12.cubic.fitsum0.%s/row' % bcn, 'CubicSpline::AddBCSumZeroToFitMatrix', 'constraint row l == sum_i f_i (whatever the row held before)', row, sum((x.v for x in f.flat()), sp.Integer(0)), seed, bound=bound))
+    mf = fn_meta(fns, 'CubicSpline', ['AddToFitMatrix', 'AddBCToFitMatrix', 'AddBCSumZeroToFitMatrix'], rel)
     for o in obs:
         o['functions'] = mf
     return obs
